@@ -33,7 +33,7 @@ EXPLANATION = ("quick: ALL ordered pairs of isomorphism-class representatives on
                "{absent,1,2} (67 x 67 pairs) in maximum mode and the pairs on <= 2 nodes in all-sizes mode are enumerated completely "
                "(that finite sub-space is exhaustive); plus seeded random pairs up to 6x7 nodes with planted common parts, relabelled "
                "copies, disconnected graphs, first-graph-larger pairs, wildcard pruning, two-attribute labels, missing attributes "
-               "(MTG copy: bond order missing on one side only), low-overlap pairs on >= 4 nodes whose common part has 1-2 atoms, "
+               "(MTG copy: also on both sides since the repair 24a0150), low-overlap pairs on >= 4 nodes whose common part has 1-2 atoms, "
                "copies with default-valued labels spelled differently (absent / written out), constructor defaults taken by omission. "
                "thorough: the same plus a seeded sample of ordered pairs on <= 4 nodes (772 classes) and 10x random.")
 TRUSTED_BASE = [
@@ -50,7 +50,7 @@ ASSUMPTIONS = ["node ids are distinct ints; no self-loops; simple undirected gra
                "prune_wc removes more than half of the atoms networkx iterates the pruned copy in Python-set order -- the encoder hands "
                "the graph to the model in that order (_nx_prune_order)",
                "node attribute values compared are str or int (interned injectively); bond orders are numeric half-integers or missing",
-               "MTG variant: within one case the bond order is missing on at most one of the two graphs (its _edge_match rejects a missing order even against a missing order, which the model reproduces; two-sided gaps are not generated)"]
+               "MTG variant: since the repair /repo 24a0150 its edge matcher agrees with the Matcher copy on one attribute (a missing order matches only a missing order, a non-numeric value only itself); two-sided gaps are generated again (mtg-gaps)"]
 TESTED_NOT_PROVED = ["prune_automorphisms=True: WHICH mapping represents a host node set is VF2's choice (first in its enumeration order). Since "
                      "round 4/5 the choice is an INPUT of the model (computed by the harness from networkx alone -- on graph objects edited in "
                      "place by replaying the caller's edits -- and validated by apply_choices): single calls and find_common_subgraph steps of "
@@ -63,7 +63,7 @@ TESTED_NOT_PROVED = ["prune_automorphisms=True: WHICH mapping represents a host 
                      "C12_facade_mcs_mol): the full mapping is compared",
                      "its_decompose (synkit.Graph.ITS, not anchored): the four sides are inputs of the model, computed by the generator independently",
                      "__repr__ / help / __iter__ of the matcher objects: checked by the adapter against the stored result after every step"]
-LEVEL_TEXT = ("Machine-checked proof (Coq, 53 theorems in coq/props/C12.v, all closed under the global context) over an executable model "
+LEVEL_TEXT = ("Machine-checked proof (Coq, 54 theorems in coq/props/C12.v, all closed under the global context) over an executable model "
               "of MCSMatcher._search_subgraphs / _prune_graph / _prepare_orientation / find_common_subgraph / get_mappings (both copies of "
               "the matcher), for all pairs of graphs with distinct node ids: every returned mapping (both modes, all three directions, after "
               "orientation swap and wildcard pruning) is a function, injective, label-preserving, and preserves presence AND order of every "
@@ -257,8 +257,10 @@ def _nx_matchers(case):
                 return False
         return True
 
-    def em_mtg(h, p):           # MTG copy: one attribute, a missing value matches nothing
+    def em_mtg(h, p):           # MTG copy: one attribute; missing matches only missing (after repair /repo 24a0150)
         a, b = h.get(names[0]), p.get(names[0])
+        if a is None and b is None:
+            return True
         return a is not None and b is not None and float(a) == float(b)
     return nm, (em_mtg if case.get("variant") == "mtg" else em)
 
@@ -336,7 +338,7 @@ def _mol_tracked(case):
     """mcs_mol on FRESH graph objects: the combined mapping itself is compared (VF2's choice is a model input); on objects edited
     in place the adjacency order -- and with it VF2's choice -- is not reproducible from the case: pairing only."""
     if case.get("variant", "matcher") == "mtg":
-        return bool(case.get("mode") == "mcs_mol" and not case.get("in_history"))
+        return bool(case.get("mode") == "mcs_mol")
     return bool(case.get("mode") == "mcs_mol" and (not case.get("in_history") or case.get("mol_tracked")))
 
 
@@ -568,7 +570,8 @@ def _run_history(case):
             _Count.n, _Count.trace = 0, []
             mn = bool(st.get("minimal"))
             if variant == "mtg":
-                r = M.find_rc_mapping(its1, its2, **_kw(mn, _RC_DEF_MTG, mcs=st["mcs"]))   # MTG copy: always right side of rc1 vs left side of rc2
+                extra = {"mcs_mol": True} if st.get("mol") else {}
+                r = M.find_rc_mapping(its1, its2, **_kw(mn, _RC_DEF_MTG, mcs=st["mcs"], **extra))   # MTG copy: always right side of rc1 vs left side of rc2
                 assert r is None
             elif st.get("mol"):
                 r = M.find_rc_mapping(its1, its2, **_kw(mn, _RC_DEF, side=st["side"], mcs=st["mcs"], mcs_mol=True, component=False))
@@ -595,7 +598,8 @@ def _run_history(case):
         call = st.get("call", "fcs")
         mn = bool(st.get("minimal"))
         if variant == "mtg":
-            M.find_common_subgraph(gs[0], gs[1], **_kw(mn, _FCS_DEF, mcs=st["mcs"]))
+            extra = {"mcs_mol": True} if call == "mcs_mol" else {}
+            M.find_common_subgraph(gs[0], gs[1], **_kw(mn, _FCS_DEF, mcs=st["mcs"], **extra))
         elif call == "fcs":
             r = M.find_common_subgraph(gs[0], gs[1], **_kw(mn, _FCS_DEF, mcs=st["mcs"]))
             assert r is M
@@ -619,7 +623,7 @@ def _run_history(case):
 
 def _in_domain(case):
     if case.get("mode") not in (None, "component", "mcs_mol") or (case.get("mode") and case["variant"] != "matcher"
-                                                                  and not (case.get("mode") == "mcs_mol" and not case.get("in_history"))):
+                                                                  and case.get("mode") != "mcs_mol"):
         return False
     if case.get("prune_auto") and (case.get("mode") or case["variant"] != "matcher"):
         return False
@@ -938,7 +942,7 @@ def _coq_history_mtg(case):
             names(na, T.NK), names(nd, T.NV), cN(T.EK(cfg["edge_attrs"][0] if ea is not None else "order")))
         ops = []
         e = G.coq_lgraph(_EMPTY_G, None, None)
-        for st in case["steps"]:
+        for k_step, st in enumerate(case["steps"]):
             if st.get("fresh") or st.get("cfg", 0) != 0:
                 return None
             call = st.get("call", "fcs")
@@ -946,6 +950,18 @@ def _coq_history_mtg(case):
                 ops.append("TRead")
                 continue
             g1, g2 = _coq_rgraph(st["g1"], T, needed), _coq_rgraph(st["g2"], T, needed)
+            if call == "mcs_mol" or (call == "rc_side" and st.get("mol")):
+                sub = _sub(case, st)
+                if not _in_domain(sub):
+                    return None
+                if st.get("src_g1") is not None or st.get("src_g2") is not None:
+                    sub["replay"] = (case, k_step)
+                ch = clist([cpair(cN(a), cN(b)) for a, b in _vf2_mol_choice(sub)])
+                if call == "mcs_mol":
+                    ops.append("TFindMol %s %s %s" % (g1, g2, ch))
+                else:
+                    ops.append("TRcMol {| rc_1 := %s; rc_2 := %s; rc_l1 := %s; rc_r1 := %s; rc_l2 := %s; rc_r2 := %s |} %s" % (e, e, e, g1, g2, e, ch))
+                continue
             if call == "fcs":
                 ops.append("TFind %s %s %s" % (g1, g2, cbool(st["mcs"])))
             elif call == "rc_side":
@@ -1629,19 +1645,11 @@ def _degenerate(rng, n):
         cfg = dict(node_attrs=["element", "charge"] if two else ["element"], node_defaults=["*", 0] if two else ["*"],
                    edge_attrs=["order"], implicit=rng.random() < 0.3)
         g1, g2 = one(), one()
-        if variant == "mtg":
-            for e in g2["edges"]:
-                e[2].setdefault("order", 1)      # MTG: order missing on at most one graph (ASSUMPTIONS)
         if rng.random() < 0.5:
             out.append(_mk("degenerate", g1, g2, rng.random() < 0.6, variant, cfg["node_attrs"], cfg["node_defaults"],
                            implicit=cfg["implicit"]))
         else:
             g3 = one()
-            if variant == "mtg":
-                for e in g3["edges"]:
-                    e[2].setdefault("order", 1)
-                for e in g1["edges"]:
-                    e[2].setdefault("order", 1)
             steps = [dict(g1=g1, g2=g2, mcs=rng.random() < 0.6, reads=["G2_to_G1", "G1_to_G2"]),
                      dict(g1=g2, g2=g3, mcs=rng.random() < 0.6, reads=["G1_to_G2", "kw"], src_g1=[0, "g2"]),
                      dict(g1=g3, g2=g1, mcs=True, reads=["pattern_to_host", "G2_to_G1"], src_g1=[1, "g2"], src_g2=[0, "g1"])]
@@ -2127,10 +2135,44 @@ def gen_cases(tier, rng):
     # element_key of the constructor), so every default value is exercised; own RNG, the cases themselves are unchanged
     import random as _random
     rng2 = _random.Random(rng.getrandbits(32))
+    # audit round 5 / repair 24a0150: MTG copy with the bond attribute missing (or non-numeric) on BOTH graphs
+    for t in range(60 if tier == "quick" else 400):
+        g1 = _rand(rng2, rng2.randint(2, 5), rng2.choice([0.4, 0.7]), connected=rng2.random() < 0.7)
+        ids = [x for x, _ in g1["nodes"]]
+        g2 = _gcopy(G.shuffle_insertion(G.relabel(g1, dict(zip(ids, rng2.sample(range(1, 16), len(ids))))), rng2))
+        g1 = _gcopy(g1)
+        z = rng2.random()
+        drop = {frozenset((u, v)) for u, v, _ in g1["edges"] if rng2.random() < 0.5}
+        for e in g1["edges"]:
+            if frozenset((e[0], e[1])) in drop:
+                e[2].pop("order", None)
+        for e in g2["edges"]:
+            if rng2.random() < 0.5:
+                e[2].pop("order", None)
+        if rng2.random() < 0.3 and g2["nodes"]:
+            g2["nodes"].append([max(n for n, _ in g2["nodes"]) + 1, {"element": "C", "charge": 0}])
+        if rng2.random() < 0.5:
+            g1, g2 = g2, g1
+        if z < 0.6:
+            cases.append(_mk("mtg-gaps", g1, g2, rng2.random() < 0.7, "mtg", minimal=rng2.random() < 0.4))
+        else:               # inside a history, with words / order pairs as bond values (non-numeric: equal only to themselves)
+            a, b = _raw_decorate(rng2, g1, g2, rng2.choice(["words", "pairs", "spelling"]))
+            cfg = dict(node_attrs=["element"], node_defaults=["*"], edge_attrs=["order"], implicit=rng2.random() < 0.5)
+            steps = [dict(g1=a, g2=b, mcs=rng2.random() < 0.7, call="fcs", cfg=0, reads=[]),
+                     dict(call="reads", reads=[], cfg=0, mcs=True, g1=a, g2=b),
+                     dict(g1=b, g2=a, mcs=True, call="fcs", cfg=0, reads=[], src_g1=[0, "g2"], src_g2=[0, "g1"])]
+            cases.append(_hist_case("history/mtg-gaps", "mtg", [cfg], steps))
     for c in cases:          # the MTG copy has the same mcs_mol mode (no pruning): a third of the mcs-mol cases go to it
         if c.get("kind") == "mcs-mol" and not c.get("prune_wc") and "steps" not in c and rng2.random() < 0.33:
             c["variant"] = "mtg"
             c["kind"] = "mcs-mol/mtg"
+    for c in cases:          # ... and inside MTG histories: mcs_mol directly and through its facade (right side of rc1 / left side of rc2)
+        if "steps" in c and c["variant"] == "mtg":
+            for st in c["steps"]:
+                if st.get("call", "fcs") == "fcs" and rng2.random() < 0.15:
+                    st["call"] = "mcs_mol"
+                elif st.get("call") == "rc_side" and rng2.random() < 0.35:
+                    st["mol"] = True
     for c in cases:
         if "steps" in c:
             for st in c["steps"]:
